@@ -13,9 +13,8 @@ k == K(D, N, s)
 T(c, m, d, n, idx) == Terms(c, m, d, K(d, n, idx), MaxJ)
 
 Init == /\ \E c \in DNSet : D = c \div 1000 /\ N = c % 1000
-        /\ cls \in Classes
-        /\ mix \in BOOLEAN
-        /\ (mix => HasMixFlag(cls))
+        /\ cls \in Classes \cup SemiClasses
+        /\ mix \in Variants(cls)
         /\ s = VZero(D)
         /\ terms = T(cls, mix, D, N, s)
         /\ t = 0
@@ -28,13 +27,13 @@ Walk(a) == /\ t = 0 /\ hist = << >>
            /\ UNCHANGED <<cls, mix, D, N, t, hist>>
 
 \* time stepping on the mode at the origin of the walk only (the counter is the same for every mode)
-Step     == /\ s = VZero(D) /\ Len(hist) < MaxT /\ t' = t + 1 /\ hist' = Append(hist, <<"Step", 1>>)
+Step     == /\ s = VZero(D) /\ cls \in Classes /\ Len(hist) < MaxT /\ t' = t + 1 /\ hist' = Append(hist, <<"Step", 1>>)
             /\ UNCHANGED <<cls, mix, D, N, s, terms>>
 \* a call with -dt undoes a call with dt: claimed (and replayed) for the non-dissipative equations only
 Reversible(c) == c \in {"Advection", "Dispersion", "Wave"}
 StepBack == /\ s = VZero(D) /\ Reversible(cls) /\ Len(hist) < MaxT /\ t' = t - 1 /\ hist' = Append(hist, <<"StepBack", -1>>)
             /\ UNCHANGED <<cls, mix, D, N, s, terms>>
-StepN(n) == /\ s = VZero(D) /\ Len(hist) < MaxT /\ t' = t + n /\ hist' = Append(hist, <<"StepN", n>>)
+StepN(n) == /\ s = VZero(D) /\ cls \in Classes /\ Len(hist) < MaxT /\ t' = t + n /\ hist' = Append(hist, <<"StepN", n>>)
             /\ UNCHANGED <<cls, mix, D, N, s, terms>>
 
 Next == (\E a \in 1..D : Walk(a)) \/ Step \/ StepBack \/ (\E n \in {2, 3} : StepN(n))
@@ -45,7 +44,7 @@ MinusK == VNeg(k)
 HermitianOK == \A tm \in terms :
                  \E tn \in Terms(cls, mix, D, MinusK, MaxJ) : tn.c = tm.c /\ tn.w = tm.w /\ tn.m = CConj(tm.m)
 \* the mean is untouched by every class except through the zeroth-order generic coefficient, which enters as D * a_0
-MeanOK == (VSq(k) = 0) => \A tm \in terms : IF tm.w = 0 THEN tm.m = CInt(D) ELSE CIsZero(tm.m)
+MeanOK == (VSq(k) = 0) => \A tm \in terms : IF tm.w = 0 THEN (cls = "GeneralLinear" => tm.m = CInt(D)) ELSE CIsZero(tm.m)
 \* every term of order j carries w^j and a homogeneous polynomial of degree j in k (dimensional consistency)
 OrderOK == \A tm \in terms : tm.w \in 0..MaxJ
 \* non-dissipative classes: purely imaginary symbol at every index (|multiplier| = 1, a step with -dt undoes a step)
@@ -63,7 +62,10 @@ Par1(c) == IF c[1] = "velocity" THEN <<3, 2>> ELSE IF c[1] = "diffusivity" THEN 
 InclusionOK == (cls = "AdvectionDiffusion") =>
                   EvalTerms(terms, Par1, <<1, 2>>) = EvalTerms(GeneralLinearTerms(D, k, MaxJ), Par1, <<1, 2>>)
 \* the two spatial-mixing variants coincide in 1D
-Mix1dOK == (D = 1 /\ HasMixFlag(cls)) => \A tm \in terms : \E tn \in Terms(cls, ~mix, D, k, MaxJ) : tn = tm
+Mix1dOK == (D = 1 /\ cls \in {"Dispersion", "HyperDiffusion", "KortewegDeVries"}) =>
+               \A v \in Variants(cls) : Terms(cls, v, D, k, MaxJ) = terms
+\* every semi-linear class with an even-order-only linear part has a real symbol (ETDRK coefficients real)
+SemiRealOK == (cls \in SemiClasses \ {"KortewegDeVries"}) => PureReal(terms)
 
 \* ------------------------------------------------------------------ properties of the time counter
 \* n calls with dt = one call with n*dt ; a call with -dt undoes a call with dt
